@@ -5,13 +5,15 @@
 EXTENDS Service, SchemaFamily
 
 CONSTANT MaxDepth
+\* (typedefs of typedefs: what a type is -- pointer, value, reference type -- is decided by the end of the chain)
 XSupport == Support \o << Td("MyBin", B("binary")), Td("MyEnumList", ListOf(Ref("Color"))),
+                         Td("MyInner2", Ref("MyInner")), Td("MyColor2", Ref("MyColor")), Td("MyList2", Ref("MyList")),
                          [name |-> "Oops", kind |-> "exception", items |-> <<>>, target |-> B("i32"), fields |-> <<>>, pkg |-> "base"],
                          [name |-> "Far", kind |-> "struct", items |-> <<>>, target |-> B("i32"), fields |-> <<>>, pkg |-> "base"],
                          [name |-> "FarEnum", kind |-> "enum", items |-> << [name |-> "A", value |-> 1] >>, target |-> B("i32"), fields |-> <<>>, pkg |-> "base"],
                          [name |-> "FarId", kind |-> "typedef", items |-> <<>>, target |-> B("i64"), fields |-> <<>>, pkg |-> "base"] >>
 Leafs == Bases \cup { Ref(n) : n \in {"Color", "Inner", "MyInt", "MyStr", "MyColor", "MyInner", "MyList", "MyLong2", "MyMap", "MySet", "MyBin",
-                                      "MyEnumList", "Oops", "Far", "FarEnum", "FarId"} }
+                                      "MyEnumList", "MyInner2", "MyColor2", "MyList2", "Oops", "Far", "FarEnum", "FarId"} }
 RECURSIVE Depth(_)
 Depth(t) == CASE t.k \in {"list", "set"} -> 1 + Depth(t.e)
               [] t.k = "map" -> 1 + (IF Depth(t.kt) > Depth(t.vt) THEN Depth(t.kt) ELSE Depth(t.vt))
